@@ -194,3 +194,42 @@ _c("play_Track",
    modifies=[], battery="seq_track",
    notes="domain: tracks of 0..2 bars of 0..2 entries each (rest / container / container with a tempo), ANY positive values "
          "and tempi: the tempo a bar ends with is the tempo the next bar starts with")
+
+# ---------------------------------------------------------------- the listener list itself
+CLASSES["Listener"] = {"class": "mingus.midi.sequencer_observer.SequencerObserver", "fields": {}}
+CLASSES["BlankSequencer"] = {"class": "mingus.midi.sequencer.Sequencer", "fields": {}}
+_c("__init__",
+   params={"self": "BlankSequencer"}, returns="None",
+   ensures=[("starts-with-no-listeners", "len(self.listeners) == 0"),
+            ("in-a-list-of-its-own", "is_fresh(self.listeners)")],
+   modifies=["param:self"], battery="seq_blank",
+   notes="a listener list that is not allocated by the constructor (class attribute, default argument, module table) "
+         "is shared by every sequencer: refuted here")
+
+_LSH = [["Listener"] * k for k in range(0, 4)]
+_c("attach",
+   params={"self": "Sequencer", "listener": "Listener"}, returns="None",
+   old={"old_listeners": "list(self.listeners)"}, old_by_reference=["old_listeners"],
+   ensures=[("listener-is-attached-once",
+             "len([l for l in self.listeners if same_object(l, listener)]) == 1"),
+            ("earlier-listeners-keep-their-places",
+             "all([same_object(self.listeners[i], old_listeners[i]) for i in range(len(old_listeners))])"),
+            ("at-most-one-more",
+             "len(self.listeners) == len(old_listeners) + (0 if any([same_object(l, listener) for l in old_listeners]) else 1)")],
+   requires=[("listeners-are-distinct-objects", "all_distinct_objects(self.listeners)")],
+   split=[{"field_types": {"self.listeners": "[" + ",".join(sh) + "]"}} for sh in _LSH] +
+         [{"field_types": {"self.listeners": "[" + ",".join(sh) + "]"}, "alias": {"listener": "self.listeners.%d" % i}}
+          for sh in _LSH for i in range(len(sh))],
+   split_is_domain=True, modifies=["param:self"], battery="seq_attach",
+   notes="domain: 0..3 listeners attached already; the new one a different object, or any of those attached")
+_c("detach",
+   params={"self": "Sequencer", "listener": "Listener"}, returns="None",
+   old={"old_listeners": "list(self.listeners)"}, old_by_reference=["old_listeners"],
+   requires=[("listeners-are-distinct-objects", "all_distinct_objects(self.listeners)")],
+   ensures=[("listener-is-gone", "not any([same_object(l, listener) for l in self.listeners])"),
+            ("the-others-stay-in-order",
+             "list_same_objects(self.listeners, [l for l in old_listeners if not same_object(l, listener)])")],
+   split=[{"field_types": {"self.listeners": "[" + ",".join(sh) + "]"}} for sh in _LSH] +
+         [{"field_types": {"self.listeners": "[" + ",".join(sh) + "]"}, "alias": {"listener": "self.listeners.%d" % i}}
+          for sh in _LSH for i in range(len(sh))],
+   split_is_domain=True, modifies=["param:self"], battery="seq_attach")
